@@ -89,6 +89,13 @@ func NewPackageDeployer(
 	}
 }
 
+// WithUncachedClient sets the client used for lookups that must not be served from a cache,
+// e.g. when validating uniqueInScope constraints.
+func (l *PackageDeployer) WithUncachedClient(uncachedClient client.Client) *PackageDeployer {
+	l.uncachedClient = uncachedClient
+	return l
+}
+
 // Returns a new cluster-scoped loader for the ClusterPackage API.
 func NewClusterPackageDeployer(
 	c client.Client,
@@ -97,7 +104,10 @@ func NewClusterPackageDeployer(
 ) *PackageDeployer {
 	return &PackageDeployer{
 		client: c,
-		scheme: scheme,
+		// Constraint checks must never run into a nil client.
+		// Use WithUncachedClient to have them read from the API server directly.
+		uncachedClient: c,
+		scheme:         scheme,
 
 		newObjectDeployment: adapters.NewClusterObjectDeployment,
 		structuralLoader:    packagestructure.DefaultStructuralLoader,
